@@ -1,6 +1,8 @@
 """C04 - interior-point LP/QP: (M) TLC on InteriorPoint.tla (status protocol), (R/E) small integer LPs decided exactly by
 TLC (vertex enumeration, LinProg.tla) and compared with the solver's status/objective, (V) KKT-constructed programs, planted
-infeasible/unbounded programs, bad starts and equivalent restatements validated against ProgramTrace.tla."""
+infeasible/unbounded programs, bad starts and equivalent restatements validated against ProgramTrace.tla; extra cases: permuted
+rows, programs stated as several constraint blocks, programs without inequalities, further planted infeasible / unbounded programs,
+generic interior user starts."""
 import os
 from concurrent.futures import ThreadPoolExecutor
 
@@ -22,11 +24,11 @@ def run(rep, tier):
         else:
             raise CheckError("TLC failed on InteriorPoint:\n" + r.out[-3000:])
     exe = common.build_harness("program_driver")["program_driver"]
-    nproc, ns, nk, np_ = (8, 200, 400, 150) if tier == "quick" else (16, 2000, 4000, 1500)
+    nproc, ns, nk, np_, nx = (8, 200, 400, 150, 240) if tier == "quick" else (16, 2000, 4000, 1500, 2400)
 
     def drive(i):
         out = os.path.join(work, "program_%d.ndjson" % i)
-        rc, o, _ = common.run([exe, out, str(common.seed() * 1000 + i + 1), str(ns), str(nk), str(np_)], timeout=3000, check=False)
+        rc, o, _ = common.run([exe, out, str(common.seed() * 1000 + i + 1), str(ns), str(nk), str(np_), str(nx)], timeout=3000, check=False)
         rs = common.read_ndjson(out) if os.path.exists(out) else []
         crashed = rc != 0 or not rs or rs[-1].get("case") != -1
         bad = [x for x in rs if x["e"] in ("Abort", "Timeout")]
@@ -36,7 +38,8 @@ def run(rep, tier):
 
     with ThreadPoolExecutor(nproc) as ex:
         results = list(ex.map(drive, range(nproc)))
-    total = nconv = ninf = npairs = 0
+    total = nconv = ninf = npairs = nconv_all = 0
+    extra = {"rowperm": 0, "blocks": 0, "noineq": 0, "interior": 0, "plant": 0}
     for crashed, o, bad, acc, rejects, rs in results:
         if crashed:
             rep.violation("program driver crashed", payload={"output": o[-3000:]})
@@ -46,23 +49,48 @@ def run(rep, tier):
         for ev in rejects:
             rep.violation("interior-point run violates ProgramTrace.tla: %s" % str(ev)[:600], payload=ev)
         for x in rs:
+            # (the first three counters: the original families only, their floors are not helped by the extra cases)
             if x["e"] in ("Small", "Kkt") and x["status"] == "converged":
-                nconv += 1
-            if x["e"] == "Kkt" and x["label"] in ("infeasible", "unbounded"):
+                nconv_all += 1
+                if "fam" not in x:
+                    nconv += 1
+            if x["e"] == "Kkt" and x["label"] in ("infeasible", "unbounded") and "fam" not in x:
                 ninf += 1
             if x["e"] == "Pair" and x["statusA"] == "converged" and x["statusB"] == "converged":
-                npairs += 1
+                if x["what"] == "permuted rows":
+                    extra["rowperm"] += 1
+                else:
+                    npairs += 1
+            if x["e"] == "Blocks" and x["statusA"] == "converged" and x["statusB"] == "converged" and x["blocks"] >= 3:
+                extra["blocks"] += 1
+            if x["e"] == "Kkt" and x.get("fam") == "noineq" and x["status"] == "converged":
+                extra["noineq"] += 1
+            if x["e"] == "Kkt" and x.get("fam") == "interior" and x["label"] == "interior" and x["status"] == "converged":
+                extra["interior"] += 1
+            if x["e"] == "Kkt" and x.get("fam") in ("plant", "noineq") and x["label"] in ("infeasible", "unbounded"):
+                extra["plant"] += 1
     if not rep.violations and (nconv < 300 or ninf < 50 or npairs < 50):
         raise CheckError("program coverage too small: %d converged, %d planted infeasible/unbounded, %d converged pairs" % (nconv, ninf, npairs))
     rep.sample([x for x in results[0][5] if x["e"] == "Small"][0])
     rep.sample([x for x in results[0][5] if x["e"] == "Kkt"][0])
     rep.sample([x for x in results[0][5] if x["e"] == "Pair"][0])
-    rep.add(traces_validated_against_impl=total, evaluations=total, distinct_nontrivial=nconv, converged_runs=nconv,
+    floors = {"rowperm": 40, "blocks": 40, "noineq": 25, "interior": 40, "plant": 100}
+    if not rep.violations and any(extra[k] < v for k, v in floors.items()):
+        raise CheckError("program coverage of the extra cases too small (converged runs / planted programs): %s" % extra)
+    rep.sample([x for x in results[0][5] if x["e"] == "Blocks"][0])
+    rep.add(traces_validated_against_impl=total, evaluations=total, distinct_nontrivial=nconv_all, converged_runs=nconv_all,
             planted_infeasible_or_unbounded=ninf, converged_pairs=npairs,
+            converged_rowperm_pairs=extra["rowperm"], converged_block_pairs=extra["blocks"], converged_without_inequalities=extra["noineq"],
+            converged_interior_starts=extra["interior"], further_planted=extra["plant"],
             rule="Small: random integer LPs, n<=3, box + up to 6 rows, coefficients in -3..3 (feasible or not); Kkt: LPs / convex QPs (Q = D'D "
                  "possibly rank-deficient), n 1..12, 0..n-1 equalities, 1..2n+2 inequalities, optimum fixed by KKT construction with random active "
                  "sets, magnitudes 1e-2..1e2, plus planted infeasible / unbounded programs and non-strictly-feasible starts; Pair: equivalent "
-                 "restatements; non-trivial = runs reporting `converged`")
+                 "restatements (scaled / duplicated / combined rows, permuted variables, permuted rows); Blocks: box programs stated in one block "
+                 "and as 1..5 blocks (make_less / make_greater with scalar or vector bounds, row and matrix overloads, two argument orders); "
+                 "Kkt/noineq: LPs / QPs with equalities only or no constraint (optimum by construction, unbounded along an exact null direction "
+                 "of Q or a free linear objective, exactly inconsistent dyadic equalities); Kkt/plant: recession rays with G d < 0, A d = 0, "
+                 "Q d = 0, inconsistent equalities, an equality against an inequality; Kkt/interior: strictly interior user starts at distance "
+                 "0.3..10 from x*, off the equalities; non-trivial = runs reporting `converged`")
     rep.assume("every tolerance comparison on real data (feasibility 1e-6, objective agreement, the 1e-8 M (...) gap bound) is computed by the driver "
                "on the program as the caller stated it; TLC decides the small integer programs exactly (feasibility; optimum within 2e-3) and the "
                "status clauses")
